@@ -89,7 +89,7 @@ Lemma latest_lbls h : forall f a, latest h f = Some a -> a_lbls a = f.
 Proof.
   induction h as [|x h IH] using rev_ind; intros f a.
   - discriminate.
-  - rewrite latest_snoc. unfold upd_latest. destruct (snd x) as [b| |]; try apply IH.
+  - rewrite latest_snoc. unfold upd_latest. destruct (snd x) as [b|sel|]; try apply IH.
     case_bool_decide as Hb; [|apply IH]. intros [= ->]. exact Hb.
 Qed.
 
@@ -103,7 +103,7 @@ Section Proofs.
   Definition step_rule (r : irule) (x : Z * op) : irule :=
     match snd x with
     | OProcess a => process_rule re a r
-    | OGC => gc_rule (fst x) r
+    | OGC sel => if sel (ir_cfg r) then gc_rule (fst x) r else r
     | OTick => r
     end.
   Definition run_rule (c : rule) (h : list (Z * op)) : irule := foldl step_rule (new_rule c) h.
@@ -141,10 +141,22 @@ Section Proofs.
     - intros k f H. unfold ix_get in H. rewrite lookup_empty in H. simpl in H. inversion H.
   Qed.
 
+  Lemma inv_idle c h t r now o :
+    (forall f, latest (h ++ [(now, o)]) f = latest h f) ->
+    inv c h t r -> t <= now -> inv c (h ++ [(now, o)]) now r.
+  Proof.
+    intros Hl [Hcfg Hsc Hlat Hix] Hle. split.
+    - exact Hcfg.
+    - intros f a0 H. rewrite Hl. exact (Hsc f a0 H).
+    - intros f a0. rewrite Hl. intros H1 H2.
+      destruct (Hlat f a0 H1 H2) as [H|H]; [left; exact H|right; exact (resolved_mono _ _ _ Hle H)].
+    - exact Hix.
+  Qed.
+
   Lemma inv_step c h t r now o :
     inv c h t r -> t <= now -> inv c (h ++ [(now, o)]) now (step_rule r (now, o)).
   Proof.
-    intros [Hcfg Hsc Hlat Hix] Hle. unfold step_rule. simpl. destruct o as [a| |].
+    intros Hinv Hle. pose proof Hinv as [Hcfg Hsc Hlat Hix]. unfold step_rule. simpl. destruct o as [a|sel|].
     - (* OProcess *)
       unfold process_rule. rewrite Hcfg.
       destruct (ms_matches re (r_src c) (a_lbls a)) eqn:Hm.
@@ -172,8 +184,9 @@ Section Proofs.
           { intros H1 H2. destruct (Hlat f a0 H1 H2) as [H|H]; [left; exact H|right; exact (resolved_mono _ _ _ Hle H)]. }
         * exact Hix.
     - (* OGC *)
-      assert (Hl : forall f, latest (h ++ [(now, OGC)]) f = latest h f).
+      assert (Hl : forall f, latest (h ++ [(now, OGC sel)]) f = latest h f).
       { intros f. rewrite latest_snoc. reflexivity. }
+      destruct (sel (ir_cfg r)); [|exact (inv_idle _ _ _ _ _ _ Hl Hinv Hle)].
       split; simpl.
       + exact Hcfg.
       + intros f a0 H. apply map_filter_lookup_Some in H as [H Hr]. simpl in Hr.
@@ -188,14 +201,7 @@ Section Proofs.
         * right. exact (resolved_mono _ _ _ Hle H).
       + intros k f H. rewrite Hcfg in H. apply gc_ix_elem in H as [H _]. exact (Hix k f H).
     - (* OTick *)
-      assert (Hl : forall f, latest (h ++ [(now, OTick)]) f = latest h f).
-      { intros f. rewrite latest_snoc. reflexivity. }
-      split.
-      + exact Hcfg.
-      + intros f a0 H. rewrite Hl. exact (Hsc f a0 H).
-      + intros f a0. rewrite Hl. intros H1 H2.
-        destruct (Hlat f a0 H1 H2) as [H|H]; [left; exact H|right; exact (resolved_mono _ _ _ Hle H)].
-      + exact Hix.
+      apply (inv_idle c h t r now OTick); [|exact Hinv|exact Hle]. intros f. rewrite latest_snoc. reflexivity.
   Qed.
 
   Lemma inv_run c h : forall t0, mono_from t0 h -> inv c h (last_time t0 h) (run_rule c h).
@@ -366,7 +372,7 @@ Section OldIndex.
   Definition old_step (ih : list orule) (x : Z * op) : list orule :=
     match snd x with
     | OProcess a => map (old_process a) ih
-    | OGC => map (old_gc (fst x)) ih
+    | OGC sel => map (fun r => if sel (or_cfg r) then old_gc (fst x) r else r) ih
     | OTick => ih
     end.
   (* the old hasEqual / findEqualSourceAlert *)
